@@ -3,7 +3,7 @@
    tools/selftest.py [ids...]      -> seeded/RESULTS.md
 For each seeded/<id>/ with meta.json: git worktree of /repo HEAD under /var/tmp, `git apply patch.diff` (a patch that no longer
 applies is reported as such), then `VERIF_REPO=<worktree> bin/check <PROP> --tier quick` for every property in caught_by;
-expected: exit 1 with a VIOLATION line.  Finally a harmless refactor (tools/harmless.diff) must leave C01 C02 C03 C10 at exit 0."""
+expected: exit 1 with a VIOLATION line.  (tools/selftest_all.sh runs groups of ids side by side and merges the tables.)"""
 import json, os, subprocess, sys, time
 HERE = os.path.dirname(os.path.dirname(os.path.abspath(__file__)))
 REPO = '/repo'
@@ -49,8 +49,11 @@ def main():
         for row in run_one(sid):
             out.append('| %s | %s | %s | %s |' % row)
             print(out[-1], flush=True)
-    open(os.path.join(HERE, 'seeded', 'RESULTS.md'), 'w').write('\n'.join(out) + '\n')
-    sh('git -C %s checkout -q evidence/' % HERE)      # the runs above rewrote evidence files from scratch trees
+    # SELFTEST_OUT=<file>: write this (partial) table elsewhere, so that several groups of ids can run side by side
+    # (tools/selftest_all.sh merges them into seeded/RESULTS.md)
+    open(os.environ.get('SELFTEST_OUT') or os.path.join(HERE, 'seeded', 'RESULTS.md'), 'w').write('\n'.join(out) + '\n')
+    if not os.environ.get('SELFTEST_OUT'):
+        sh('git -C %s checkout -q evidence/' % HERE)      # the runs above rewrote evidence files from scratch trees
 
 
 if __name__ == '__main__':
